@@ -28,12 +28,21 @@ sorted from every initial order (seven orders where name length x number of orde
 spec = {"pad": int, "stem": str, "sep": str, "k": int, "lead": "count"|"same"|"roman"|"mixed", "tails": [str, ...]}:
 name i = "q" * pad + (stem + <number j> + sep for j = 1..k-1) + stem + tails[i]   (see long_names)
 
+Very long digit runs (kind "digits"): one name of the case holds a run of `digits` decimal digits at its start, in
+its middle or at its end, next to a twin whose run differs in the last digit and a few ordinary names; both entry points, all
+initial orders, judged by the same oracle (the oracle reads digits by arithmetic, it has no limit).  KNOWN FINDING,
+class "c20-digit-run-over-int-limit": where the interpreter limits int <-> str conversion (sys.get_int_max_str_digits(),
+4300 by default; 0 = no limit) a run of more digits makes int() in the key function raise ValueError.  A failure carries
+that class only if some name of the case has a digit run longer than the limit AND the failure is a ValueError raised
+by the sort; a wrong order, another exception, or a ValueError for names within the limit stay unclassified.
+
 attr = {"haplotype": str|None, "tag": str|None, "original_name": str|None, "original_tags": [str]|None,
         "rows": [[contig name, length, strand], ...]}   (a missing key = the constructor's default)
 """
 
 import itertools
 import random
+import sys
 
 from tola.assembly.assembly import Assembly
 from tola.assembly.fragment import Fragment
@@ -764,10 +773,105 @@ def check_long_list(k, n_names, seed, col, inp):
             return
 
 
+# ---------------------------------------------------------------------------------------------
+# very long digit runs
+
+KNOWN_DIGIT_RUN = "c20-digit-run-over-int-limit"
+
+
+def longest_digit_run(name):
+    best = run = 0
+    for ch in name:
+        run = run + 1 if "0" <= ch <= "9" else 0
+        if run > best:
+            best = run
+    return best
+
+
+def digit_names(inp):
+    """[the name with the run, its twin (differs in the last digit of the run), *ordinary names]"""
+    n, lead = inp["digits"], inp.get("lead", "1")
+    run = lead * n
+    twin = run[:-1] + ("3" if lead != "3" else "4")  # the same number of digits, another last digit
+    shape = {"start": "{}_ctg", "middle": "SUPER_{}_unloc_2", "end": "ctg_{}"}[inp["where"]]
+    return [shape.format(run), shape.format(twin), *inp["others"]]
+
+
+def short(name):
+    return name if len(name) <= 40 else f"{name[:14]}...({longest_digit_run(name)} digits)...{name[-12:]}"
+
+
+def check_digits(inp, col):
+    names = digit_names(inp)
+    n = len(names)
+    ranks = inp.get("ranks")
+    limit = sys.get_int_max_str_digits() if hasattr(sys, "get_int_max_str_digits") else 0
+    over = limit > 0 and any(longest_digit_run(nm) > limit for nm in names)
+    keys = [okey(nm) for nm in names]
+    order = sorted(range(n), key=lambda i: _CmpKey(keys[i]))
+    pos = [0] * n
+    for a, b in zip(order, order[1:]):
+        pos[b] = pos[a] + (1 if ocmp(keys[a], keys[b]) else 0)
+    where = f"names {[short(nm) for nm in names]}: a run of {inp['digits']} digits at the {inp['where']} of a name, and its twin"
+    for fn in ("scaffolds_sorted_by_name", "smart_sort_scaffolds"):
+        for perm in itertools.permutations(range(n)) if n <= 4 else some_orders(n, False):
+            nm = [names[i] for i in perm]
+            rk = [ranks[i] for i in perm] if (ranks and fn.startswith("smart")) else [0] * n
+            col.evaluations += 1
+            try:
+                given, out = sort_by_name(nm) if fn.startswith("scaffolds") else smart_sort(nm, rk)
+            except Exception as e:
+                known = over and isinstance(e, ValueError)
+                col.fail(
+                    f"{fn} raised {type(e).__name__}: {str(e)[:160]} for {where}"
+                    + (f" (more digits than sys.get_int_max_str_digits() = {limit})" if over else ""),
+                    inp,
+                    [KNOWN_DIGIT_RUN] if known else [],
+                )
+                break
+            if sorted(map(id, given)) != sorted(map(id, out)):
+                col.fail(f"{fn}: output is not a rearrangement of the input scaffolds; {where}", inp)
+                break
+            idx_of = {id(sc): i for sc, i in zip(given, perm)}
+            got = [idx_of[id(sc)] for sc in out]
+            bad = None
+            for a, b in zip(got, got[1:]):
+                ra, rb = rk[perm.index(a)], rk[perm.index(b)]
+                if ra != rb:
+                    if ra > rb:
+                        bad = f"'{short(names[a])}' (rank {ra}) placed before '{short(names[b])}' (rank {rb})"
+                        break
+                    continue
+                if pos[a] > pos[b]:
+                    bad = f"'{short(names[a])}' placed before '{short(names[b])}' although its key is larger by value"
+                    break
+            if bad:
+                col.fail(f"{fn}: {bad}, initial order {[short(x) for x in nm]}" + (f" ranks {rk}" if any(rk) else "") + f"; {where}", inp)
+                break
+
+
+def digit_cases(quick):
+    others = ["ctg_2", "ctg_10"]
+    if quick:
+        yield {"kind": "digits", "digits": 4300, "where": "end", "lead": "1", "others": others, "ranks": None}
+        yield {"kind": "digits", "digits": 4301, "where": "end", "lead": "1", "others": others, "ranks": None}
+        return
+    pools = [others, ["SUPER_2", "SUPER_10_unloc_1", "1_ctg"], ["9", "x"]]
+    k = 0
+    for digits, wheres in ((4299, ("end",)), (4300, ("start", "middle", "end")), (4301, ("end", "middle")), (5000, ("start",)), (10000, ("middle", "end"))):
+        for where in wheres:
+            k += 1
+            pool = pools[k % 3]
+            ranks = [1, 1, 0, 1, 1][: 2 + len(pool)] if k % 2 else None
+            yield {"kind": "digits", "digits": digits, "where": where, "lead": "19"[k % 2], "others": pool, "ranks": ranks}
+
+
 def replay(inp):
     col = Collector("replay")
     rng = random.Random(0)
-    if inp["kind"] == "long":
+    if inp["kind"] == "digits":
+        check_digits(inp, col)
+    elif inp["kind"] == "long":
         check_long(inp["spec"], inp.get("ranks"), col, inp)
     elif inp["kind"] == "long-list":
         check_long_list(inp["k"], inp["n_names"], inp["seed"], col, inp)
@@ -828,7 +932,10 @@ def run(tier, seed, **opts):
         "agree in their first k-1 numbers (decimal, I..IV or mixed, behind several stems / separators, or behind up to 100 000 "
         "letters) and differ in the k-th (2 9 10 100, zero-padded twins, unlocs, numerals against decimals), k = 1 .. 2500 (thorough: "
         "around every power of two to 16 384, 20 000), every initial order (longest names: 7 orders), and 30-120 such names in one sort; "
-        "non-trivial = distinct name multisets / pairs sorted"
+        "(8) a name with a run of 4300 / 4301 (thorough: 4299 .. 10 000) digits at its start, middle or end, its twin and ordinary names, both "
+        "entry points, all initial orders (known class c20-digit-run-over-int-limit: ValueError beyond sys.get_int_max_str_digits()); "
+        "non-trivial = distinct name multisets / pairs sorted",
+        max_failures=40,  # up to 10 of them are of the known class (very long digit runs, run last)
     )
     # (1) exhaustive small alphabet
     names = list(all_names(SMALL_ALPHABET, max_len))
@@ -992,11 +1099,20 @@ def run(tier, seed, **opts):
         col.distinct.add(("history", repr(stages)))
         if n_hist == 3:
             col.samples.append(inp)
+    # (8) very long digit runs, last: the failures of the known class must not take the place of others
+    n_digits = 0
+    for inp in digit_cases(quick):
+        if col.full:
+            break
+        check_digits(inp, col)
+        n_digits += 1
+        col.distinct.add(("digits", inp["digits"], inp["where"], inp["lead"]))
     return col.result(
         bounds=f"all {len(names)} names of length <= {max_len} over {len(SMALL_ALPHABET)} characters; all pairs of length <= {pair_len}"
         + ("" if quick else " (length-4 pairs: every 7th)")
         + f"; {n_sets} multisets of <= 5 names x all permutations; {len(PREFIXES) * 3} families up to n = 120; 18 nematode sets; "
         f"{n_hist} histories of 2-4 stages on the same <= 6 scaffold objects; {n_attr} name sets / lists / families with attributes other than name and rank; "
-        f"{n_long} sets / lists of long names (up to {2500 if quick else 20000} numbers or {5000 if quick else 100000} letters in front of the number that decides)",
+        f"{n_long} sets / lists of long names (up to {2500 if quick else 20000} numbers or {5000 if quick else 100000} letters in front of the number that decides); "
+        f"{n_digits} cases with a digit run of up to {4301 if quick else 10000} digits",
         exhaustive=True,
     )
